@@ -318,6 +318,8 @@ structure SeqInfo where
   endOrd : Nat
   endRow : Nat
   num : Nat
+  /-- `p->scan[0].num`: what `xmp_start_player` leaves in `flow.end_point` -/
+  num0 : Nat := 0
   deriving Repr, Inhabited
 
 structure PlaySt where
@@ -416,17 +418,37 @@ def PlayEnv.render (e : PlayEnv) (s : PlaySt) : PlaySt :=
 def PlayEnv.frameStep (e : PlayEnv) (s : PlaySt) : Option PlaySt :=
   (e.advance s).map e.render
 
+/-- `set_position`'s `while (has_marker && xxo[pos] == 0xfe) pos++` (dir = 0) -/
+def skipMarkers (m : LinMod) : Nat → Nat → Nat
+  | 0, pos => pos
+  | fuel + 1, pos =>
+    if m.marker ∧ pos < m.len ∧ m.patOf pos = 0xfe then skipMarkers m fuel (pos + 1) else pos
+
+/-- `flow.end_point` after `xmp_start_player`, `xmp_set_position(entry point)` and the
+reposition branch of the next `xmp_play_frame`:
+* `xmp_start_player` leaves `scan[0].num`;
+* `set_position` stores `pos > scan.ord ? 0 : scan.num` only if the position it
+  settles on (after skipping 0xfe markers) holds a valid pattern;
+* `xmp_play_frame` stores `scan.num` if `p->pos` is the entry point, then 0 if
+  `p->pos > scan.ord`. -/
+def PlayEnv.startEndPoint (e : PlayEnv) : Int :=
+  let m := e.m
+  let pos := skipMarkers m m.len e.si.ep
+  let e1 : Int := if pos < m.len ∧ m.patOf pos < m.npat then
+      (if pos > e.si.endOrd then 0 else (e.si.num : Int)) else (e.si.num0 : Int)
+  let e2 : Int := if pos = e.si.ep then (e.si.num : Int) else e1
+  if pos > e.si.endOrd then 0 else e2
+
 /-- State after `xmp_set_position(entry point)` and the reposition branch of the
 following `xmp_play_frame` (before its new-row work): `next_order` from the
-entry point, `update_from_ord_info`, `end_point`. -/
+position `set_position` settled on, `update_from_ord_info`, `end_point`. -/
 def PlayEnv.start (e : PlayEnv) : Option PlaySt :=
-  match nextOrder e.m e.si e.ctl (orderFuel e.m) e.si.ep with
+  match nextOrder e.m e.si e.ctl (orderFuel e.m) (skipMarkers e.m e.m.len e.si.ep) with
   | none => none
   | some ord =>
     let i := e.info.getD ord {}
     some { ord := ord, row := 0, frame := 0, speed := i.speed, bpm := i.bpm,
-           endPoint := if e.si.ep > e.si.endOrd then 0 else (e.si.num : Int),
-           ctime := i.time.toNat * L }
+           endPoint := e.startEndPoint, ctime := i.time.toNat * L }
 
 /-- Frames rendered until the loop counter increments (that frame excluded).
 `s` is the state after sequencing of the frame about to be rendered. -/
@@ -449,7 +471,8 @@ def PlayEnv.run (e : PlayEnv) (fuel : Nat) : List PlaySt :=
 def SeqScan.env (sc : SeqScan) (m : LinMod) (k : Nat) : PlayEnv :=
   let r := sc.seqs.getD k default
   { m := m,
-    si := { seq := k, ep := r.ep, endOrd := r.res.endOrd, endRow := r.res.endRow, num := r.res.num },
+    si := { seq := k, ep := r.ep, endOrd := r.res.endOrd, endRow := r.res.endRow, num := r.res.num,
+            num0 := (sc.seqs.getD 0 default).res.num },
     ctl := sc.ctl, info := sc.info }
 
 /-- rows entered (first frame of a row) in a list of rendered frames -/
